@@ -2,13 +2,14 @@
 
 Cases come from `drv gen C19g <tier> <seed>`: `gens <fam> <hex spec|hex spec|…> <ok <hex path> <hex k>=<hex v>;…|…>` — 1..4
 generator specifications whose paths are the scratch executables g1..g4 (one generic /bin/sh script that copies its stdin
-to `<name>.stdin` and answers with two empty sequences) and whose expectation is the model's parse of each
+to `<name>.stdin.<pid>` and answers with two empty sequences) and whose expectation is the model's parse of each
 specification (`pluginParser`, the function the C19 theorems are about). The real binary is run once per case in a
 scratch directory with one clean source file; for every generator the captured stdin must be
 `<request> ++ encode(Arguments = the model's key/value list, in order)`, with the same `<request>` for all generators of
 the run (which is also the request of a run without any arguments).
 """
 import concurrent.futures
+import itertools
 import os
 import shutil
 import subprocess
@@ -16,7 +17,7 @@ import tempfile
 import time
 
 LABEL = "proc C19 arguments"
-GEN = "#!/bin/sh\ncat > \"$0.stdin\"\nprintf '\\000\\000'\n"
+GEN = "#!/bin/sh\ncat > \"$0.stdin.$$\"\nprintf '\\000\\000'\n"          # one copy per process: the same path may be given twice
 SRC = "module M\nstruct S { a: bool }\n"
 
 
@@ -81,17 +82,22 @@ def run_one(exe, base, idx, specs, expected):
         if p.returncode != 0:
             return "diff", "slicec exits %d: %s" % (p.returncode, p.stderr.decode("utf-8", "replace")[:200])
         payloads = []
+        by_name = {}
         for (path, args) in expected:
-            name = os.path.basename(path.decode("utf-8", "replace"))
-            sp = os.path.join(work, name + ".stdin")
-            if not os.path.exists(sp):
-                return "diff", "generator %s left no stdin copy (model: path %r)" % (name, path)
-            got = open(sp, "rb").read()
-            suf = enc_args(args)
-            if not got.endswith(suf):
-                return "oracle", "generator %s did not receive its own arguments unchanged: expected tail %s, got tail %s" % (
-                    name, suf.hex(), got[-len(suf) - 8:].hex())
-            payloads.append(got[:len(got) - len(suf)])
+            by_name.setdefault(os.path.basename(path.decode("utf-8", "replace")), []).append(enc_args(args))
+        for name, sufs in by_name.items():
+            copies = [open(os.path.join(work, f), "rb").read() for f in sorted(os.listdir(work)) if f.startswith(name + ".stdin.")]
+            if len(copies) != len(sufs):
+                return ("diff" if not copies else "oracle"), "generator %s was started %d time(s), the command line names it %d time(s)" % (name, len(copies), len(sufs))
+            match = None
+            for perm in itertools.permutations(copies):
+                if all(c.endswith(sf) for c, sf in zip(perm, sufs)):
+                    match = perm
+                    break
+            if match is None:
+                return "oracle", "generator %s did not receive its own arguments unchanged: expected tails %s, got tails %s" % (
+                    name, [sf.hex() for sf in sufs], [c[-max(len(sf) for sf in sufs) - 8:].hex() for c in copies])
+            payloads += [c[:len(c) - len(sf)] for c, sf in zip(match, sufs)]
         if len(set(payloads)) > 1:
             return "oracle", "the generators of one run received different requests in front of their arguments: lengths %s" % [len(x) for x in payloads]
         return "ok", payloads[0] if payloads else None
